@@ -58,6 +58,7 @@ MANIFEST = {
         " Also decided: no for-loop variable of these modules is read after its loop (statement left one indentation level too shallow)."
         " Also decided: no str-Enum value is tested by identity (plain strings are accepted for these enums)."
         " Also decided: no closure created in a loop keeps the loop variable by reference (late binding)."
+        ' Also decided: in the dominance test a start exactly at the earliest completion on that machine counts as dominated.'
     ),
     "note": (
         "User-supplied filters are outside the quantifier. The sub-list proof "
@@ -316,6 +317,9 @@ def run(ctx):
                 loc=f.loc(n),
             )
 
+    # ---------------------------------------------------------------- R07.m
+    ctx.attempt(_dominance_tie, ctx, all_filters)
+
     # ---------------------------------------------------------------- R07.f
     chk.rule("R07.f", "an entry stored under machine m of a per-machine table built inside `for m in <op>.machines` is computed from m (start/end times are per machine)")
     n_tab = 0
@@ -500,6 +504,101 @@ def _after_composite(ctx, repo, chk):
     if not bad:
         chk.ok("R07.d", avail.qualname, avail.loc(), f"{len(res)} paths")
     chk.floor("R07.d", len(res), 2, "available_operations paths")
+
+
+def _dominance_tie(ctx, all_filters):
+    """R07.m - the dominance test: an operation that would start on a machine
+    exactly when the earliest competitor there completes IS dominated ("starts
+    before the earliest completion" fails), so the comparison between a start
+    time and the entry `T[m]` of the per-machine completion table must put the
+    tie on the dominated side: `start >= T[m]` (dominated) / `start < T[m]`
+    (kept).  `T[m]` is recognised structurally: a subscript by the variable of
+    an enclosing loop / comprehension over `<operation>.machines`."""
+    chk = ctx.chk
+    chk.rule("R07.m", "dominance: start >= earliest completion on that machine is dominated (a tie counts as dominated)")
+    dom = all_filters.get("dominated_operations") or next((f for k, f in all_filters.items() if "dominated" in f.name), None)
+    if dom is None:
+        return
+    fd = ctx.norm.flat(dom, depth=3)
+    units = [fd]
+    seen = {dom.qualname}
+    for g, rc, via in ctx.effects.closure(dom, dom.cls, max_depth=2):
+        if g.qualname in seen or isinstance(g.node, ast.Lambda) or g.cls is not None:
+            continue
+        seen.add(g.qualname)
+        units.append(g)
+
+    def machine_vars(f, node):
+        """variables of enclosing loops / comprehension clauses that walk `<x>.machines`"""
+        out = set()
+
+        def walks_machines(it):
+            return any(isinstance(x, ast.Attribute) and x.attr == "machines" for x in ast.walk(it))
+
+        cur = f.module.parents.get(node)
+        child = node
+        while cur is not None:
+            if isinstance(cur, ast.For) and walks_machines(cur.iter):
+                out |= {x.id for x in ast.walk(cur.target) if isinstance(x, ast.Name)}
+            if isinstance(cur, (ast.GeneratorExp, ast.ListComp, ast.SetComp)):
+                for gen in cur.generators:
+                    if walks_machines(gen.iter):
+                        out |= {x.id for x in ast.walk(gen.target) if isinstance(x, ast.Name)}
+            if cur is f.node:
+                break
+            child, cur = cur, f.module.parents.get(cur)
+        return out
+
+    # a helper that is handed the machine id:  _is_dominated_on(d, op, m, table)  called for m in op.machines
+    machine_params: dict[str, set] = {}
+    for f in units:
+        for call in own_nodes(f.node):
+            if not (isinstance(call, ast.Call) and isinstance(call.func, ast.Name)):
+                continue
+            g = next((u for u in units if u is not f and u.name == call.func.id and u is not fd), None)
+            if g is None:
+                continue
+            mv_site = machine_vars(f, call)
+            for p_, a_ in list(zip(g.params, call.args)) + [(k.arg, k.value) for k in call.keywords if k.arg]:
+                if isinstance(a_, ast.Name) and a_.id in mv_site:
+                    machine_params.setdefault(g.qualname, set()).add(p_)
+
+    n_cmp = 0
+    for f in units:
+        for c in own_nodes(f.node):
+            if not (isinstance(c, ast.Compare) and len(c.ops) == 1 and isinstance(c.ops[0], (ast.Lt, ast.LtE, ast.Gt, ast.GtE))):
+                continue
+            mv = machine_vars(f, c) | machine_params.get(f.qualname, set())
+            if not mv:
+                continue
+
+            def is_entry(e):
+                return isinstance(e, ast.Subscript) and isinstance(e.slice, ast.Name) and e.slice.id in mv and isinstance(e.value, (ast.Name, ast.Attribute))
+
+            l, r = c.left, c.comparators[0]
+            if is_entry(l) == is_entry(r):
+                continue
+            # the running-minimum update `if v < T[m]: T[m] = v` is not the dominance test
+            par = f.module.parents.get(c)
+            if isinstance(par, ast.If) and any(
+                isinstance(st, ast.Assign) and any(ast.unparse(t) == ast.unparse(l if is_entry(l) else r) for t in st.targets) for st in par.body
+            ):
+                continue
+            n_cmp += 1
+            op = c.ops[0]
+            if is_entry(l):  # normalise to  start OP T[m]
+                op = {ast.Lt: ast.Gt, ast.LtE: ast.GtE, ast.Gt: ast.Lt, ast.GtE: ast.LtE}[type(op)]()
+            if isinstance(op, (ast.GtE, ast.Lt)):
+                chk.ok("R07.m", dom.qualname, f.loc(c), f"`{ast.unparse(c)}`: a tie is dominated")
+            else:
+                chk.violation(
+                    "R07.m", dom, c,
+                    f"the dominance test `{ast.unparse(c)}` treats an operation that would start exactly at the earliest completion "
+                    "on that machine as not dominated: it is kept although it does not start before that completion",
+                    loc=f.loc(c),
+                )
+    if n_cmp == 0:
+        raise AnalysisError("filter_dominated_operations: comparison of a start time with the per-machine earliest completion not found")
 
 
 def _per_machine_tables(ctx, fi: FuncInfo) -> int:
